@@ -72,6 +72,11 @@ pub fn handle(op: &str, a: &[&str]) -> Option<String> {
             let zn = ZmodN::new(n);
             Some(zn.to_int(x).to_string())
         }
+        ("zn_from_to", [n, x]) => {
+            let (n, x) = (uint_of(n)?, uint_of(x)?);
+            let zn = ZmodN::new(n);
+            Some(zn.to_int(zn.from_int(x)).to_string())
+        }
         ("zn_inv", [n, x]) => {
             let (n, x) = (uint_of(n)?, mint_of(x)?);
             let zn = ZmodN::new(n);
